@@ -17,6 +17,7 @@ def run(ctx):
     cache_corr.history_campaign(ctx, camp, ctx.n(60, 1200), ctx.n(6, 8))
     import cache_files
     cache_files.run_file_histories(ctx, camp.found)     # real file stores, real modified times
+    cache_files.rebuild_then_repeat(ctx, lambda key, what, replay: camp.add("C05", key, what, replay))
     import tz_histories
     tz_histories.run(ctx, camp.add, "C05")       # the same decisions in processes running in other time zones
     camp.eval_model()
